@@ -44,6 +44,9 @@ pub struct Info {
     pub evals: u64,
     /// extra distinct non-trivial fingerprints (for checks evaluating many sub-cases per case)
     pub extra_nontrivial: Vec<u64>,
+    /// violations found while the case went on checking other things: each is either a listed
+    /// known finding (counted) or reported as a violation
+    pub soft: Vec<Viol>,
 }
 
 pub type Out = Result<Info, Viol>;
@@ -159,6 +162,7 @@ impl Ctx {
 
     /// Record the outcome of one concrete case evaluated outside proptest (enumerations, replays)
     pub fn record(&self, sub: &str, out: Out) -> bool {
+        let out = self.split_soft(out);
         match out {
             Ok(info) => {
                 self.absorb(sub, info);
@@ -175,6 +179,28 @@ impl Ctx {
                     false
                 }
             }
+        }
+    }
+
+    /// turns the first soft violation that is not a known finding into a hard one; counts the rest
+    fn split_soft(&self, out: Out) -> Out {
+        match out {
+            Ok(mut info) => {
+                let soft = std::mem::take(&mut info.soft);
+                let mut counted: BTreeSet<String> = BTreeSet::new();
+                for v in soft {
+                    if self.is_known(&v.sig) {
+                        if counted.insert(v.sig.clone()) {
+                            let mut st = self.stats.lock().unwrap();
+                            *st.known_hits.entry(v.sig.clone()).or_insert(0) += 1;
+                        }
+                    } else {
+                        return Err(v);
+                    }
+                }
+                Ok(info)
+            }
+            e => e,
         }
     }
 
@@ -259,7 +285,7 @@ impl Ctx {
                     let mut runner = TestRunner::new_with_rng(cfg, rng);
                     let strat = mk();
                     let failed_here = std::cell::Cell::new(false);
-                    let f = |v: &T| -> Out { guarded(&self.prop, || f(v), || format!("{:?}", v)) };
+                    let f = |v: &T| -> Out { self.split_soft(guarded(&self.prop, || f(v), || format!("{:?}", v))) };
                     let res = runner.run(&strat, |v| {
                         if !failed_here.get() && self.stop.load(Ordering::Relaxed) {
                             return Ok(());
